@@ -22,6 +22,7 @@
 #include <cstdio>
 #include <cstdlib>
 #include <cstring>
+#include <ctime>
 #include <fstream>
 #include <functional>
 #include <iostream>
@@ -32,6 +33,7 @@
 #include <unordered_set>
 #include <vector>
 #include <fcntl.h>
+#include <sys/resource.h>
 #include <sys/time.h>
 #include <sys/wait.h>
 #include <unistd.h>
@@ -342,11 +344,12 @@ inline void onTick(int) {
   }
 }
 inline void stopWatchdog() {
-  struct itimerval z; memset(&z, 0, sizeof z); setitimer(ITIMER_REAL, &z, nullptr); signal(SIGALRM, SIG_IGN); G().law = nullptr;
+  struct itimerval z; memset(&z, 0, sizeof z); setitimer(ITIMER_PROF, &z, nullptr); signal(SIGPROF, SIG_IGN); G().law = nullptr;
 }
 inline void startWatchdog() {
-  struct sigaction sa; memset(&sa, 0, sizeof sa); sa.sa_handler = onTick; sigaction(SIGALRM, &sa, nullptr);
-  struct itimerval it; it.it_interval.tv_sec = 1; it.it_interval.tv_usec = 0; it.it_value = it.it_interval; setitimer(ITIMER_REAL, &it, nullptr);
+  // CPU time (ITIMER_PROF), not wall clock: a loaded machine must not look like a hang
+  struct sigaction sa; memset(&sa, 0, sizeof sa); sa.sa_handler = onTick; sigaction(SIGPROF, &sa, nullptr);
+  struct itimerval it; it.it_interval.tv_sec = 1; it.it_interval.tv_usec = 0; it.it_value = it.it_interval; setitimer(ITIMER_PROF, &it, nullptr);
 }
 
 // ---------------------------------------------------------------- rapidcheck driver
@@ -363,6 +366,7 @@ inline rc::Gen<std::vector<uint64_t>> genChoices(int len) {
   };
 }
 
+inline double cpuS() { return static_cast<double>(clock()) / CLOCKS_PER_SEC; }
 inline double nowS() { struct timeval tv; gettimeofday(&tv, nullptr); return static_cast<double>(tv.tv_sec) + 1e-6 * static_cast<double>(tv.tv_usec); }
 
 // Runs in a forked child; returns 0 pass, 1 law failure, 2 died.
@@ -370,9 +374,9 @@ inline int runForked(const Law& law, const std::vector<uint64_t>& ch, int limitS
   fflush(nullptr);
   pid_t p = fork();
   if (p == 0) {
-    G().crashPath[0] = 0; G().hangPath[0] = 0; alarm(static_cast<unsigned>(limitS));
-    struct sigaction sa; memset(&sa, 0, sizeof sa); sa.sa_handler = SIG_DFL; sigaction(SIGALRM, &sa, nullptr);
-    struct itimerval it; memset(&it, 0, sizeof it); setitimer(ITIMER_REAL, &it, nullptr); alarm(static_cast<unsigned>(limitS));
+    G().crashPath[0] = 0; G().hangPath[0] = 0;
+    struct itimerval it; memset(&it, 0, sizeof it); setitimer(ITIMER_PROF, &it, nullptr); signal(SIGPROF, SIG_DFL);
+    struct rlimit rl; rl.rlim_cur = static_cast<rlim_t>(limitS); rl.rlim_max = static_cast<rlim_t>(limitS) + 1; setrlimit(RLIMIT_CPU, &rl);  // CPU seconds
     int fd = open("/dev/null", 1); if (fd >= 0) { dup2(fd, 2); dup2(fd, 1); }
     VecSrc s(ch); Verdict v = runCase(law, s); _exit(v.ok ? 0 : 1);
   }
@@ -489,8 +493,12 @@ inline int harnessMain(int argc, char** argv, const char* propertyId) {
   } else {
     std::vector<uint64_t> lastFail; Verdict lastV;
     const Law& L = *law;
+    long shrinkAttempts = 0; double shrinkT0 = 0;
     bool ok = rc::check(L.name, [&]() {
       std::vector<uint64_t> ch = *genChoices(L.len);
+      if (failed) {  // shrinking phase: bounded effort (attempts and CPU time), then every further candidate "passes"
+        if (++shrinkAttempts > 4000 || cpuS() - shrinkT0 > 60) return;
+      }
       setCurrent(ch);
       Verdict v;
       if (forkAll) {
@@ -501,7 +509,7 @@ inline int harnessMain(int argc, char** argv, const char* propertyId) {
         VecSrc s(ch); v = runCase(L, s);
       }
       if (!failed) st.add(v);   // statistics only for the generation phase, not for shrinking
-      if (!v.ok && !v.skipped) { failed = true; lastFail = ch; lastV = v; RC_FAIL(v.msg); }
+      if (!v.ok && !v.skipped) { if (!failed) shrinkT0 = cpuS(); failed = true; lastFail = ch; lastV = v; RC_FAIL(v.msg); }
     });
     if (!ok && failed) {
       failMsg = lastV.msg; failFile = base + ".fail.case";
